@@ -405,6 +405,8 @@ pub struct PtShared {
     pub q: OutcomeQueues,
     pub requests: Vec<ReqLog>,
     pub anomalies: Vec<(usize, u16, String)>,
+    /// Planned BadBody / Foreign faults that were not injected because the library decodes them.
+    pub not_a_fault: u64,
     pub faults: Vec<FaultSpec>,
     pub fired: Vec<FaultFired>,
     pub current_op: i32,
@@ -438,6 +440,7 @@ impl PtShared {
             q: OutcomeQueues::default(),
             requests: vec![],
             anomalies: vec![],
+            not_a_fault: 0,
             faults,
             fired: vec![],
             current_op: -1,
@@ -605,6 +608,39 @@ impl PtConn {
         if let Some(n) = pt.spec.dead_from_conn {
             if self.conn >= n && point == pt.spec.dead_point.max(1) {
                 fault = Some(FaultKind::Silence);
+            }
+        }
+        // "undecodable body" and "foreign packet" are faults only if the library under test cannot
+        // decode them in this exchange: a library that (legitimately) reads a blank `06 D1 00`, or
+        // knows one more reply, is not faulted by them - the terminal then simply sends what it meant to
+        if let Some(kind @ (FaultKind::BadBody | FaultKind::Foreign(..))) = fault {
+            let frame = match kind {
+                FaultKind::BadBody => bad_body_for((e.frame[0], e.frame[1]), e.identity),
+                FaultKind::Foreign(c, i) => rc::apdu((c, i), &[0x27, 0x00]),
+                _ => unreachable!(),
+            };
+            use crate::seqs::SeqId;
+            let seq = match during {
+                (0x06, 0x00) => Some(SeqId::Registration),
+                (0x0f, 0xa1) => Some(SeqId::GetSystemInfo),
+                (0x06, 0x22) => Some(SeqId::Reservation),
+                (0x06, 0x23) | (0x06, 0x25) => Some(SeqId::PartialReversal),
+                (0x06, 0x50) => Some(SeqId::EndOfDay),
+                (0x06, 0xc0) => Some(SeqId::ReadCard),
+                (0x06, 0x93) => Some(SeqId::Initialization),
+                (0x06, 0x1b) => Some(SeqId::SetTerminalId),
+                _ => None,
+            };
+            let decodable = if at_ack {
+                // at the acknowledgement point the library expects 80 00 and nothing else
+                false
+            } else {
+                seq.map(|s| crate::seqs::library_parses(s, &frame).unwrap_or(false)).unwrap_or(false)
+            };
+            if decodable {
+                io.note(format!("fault {:?} at c{} p{} is decodable for this library: not injected", kind, self.conn, point));
+                pt.not_a_fault += 1;
+                fault = None;
             }
         }
         let mut delay = e.delay_ms;
